@@ -546,7 +546,9 @@ mod walks {
                 for s in steps {
                     all.extend(json_bytes(&s["bytes"]));
                 }
-                all.extend_from_slice(&[0x11, 0x22]);
+                // a walk may stop inside a container: pad, so that a declared element count never exceeds
+                // the remaining input (the readers reject such headers)
+                all.extend_from_slice(&[0u8; 256]);
                 let mut b = Bytes::from(all);
                 let mut p = TCompactInputProtocol::new(&mut b);
                 let mut open = Vec::new();
